@@ -174,6 +174,20 @@ pub fn op_kdf(a: &[&str]) -> String {
                 _ => bad(),
             }
         }
+        [ty, "seedzeros", n] => {
+            // a seed of n zero bytes (n may exceed 2^32; the allocation is lazy, nothing is touched when the length is refused)
+            let Ok(n) = n.parse::<usize>() else { return bad() };
+            let seed = vec![0u8; n];
+            match *ty {
+                "elgamal" => match (ElGamalKeypair::from_seed(&seed), ElGamalSecretKey::from_seed(&seed)) {
+                    (Ok(k), Ok(s)) if k.secret().as_bytes() == s.as_bytes() => format!("ok:{}", hex(&kp_bytes(&k))),
+                    (Err(_), Err(_)) => "err".into(),
+                    _ => "variant-mismatch".into(),
+                },
+                "ae" => match AeKey::from_seed(&seed) { Ok(k) => format!("ok:{}", hex(&ae_bytes(k))), Err(_) => "err".into() },
+                _ => bad(),
+            }
+        }
         [ty, "signer", sigh, seedh] => {
             let (Some(sig), Some(ps)) = (unhex(sigh).and_then(|b| arr::<64>(&b)), unhex(seedh)) else { return bad() };
             let s = Recording { sig, msg: RefCell::new(vec![]) };
